@@ -4,6 +4,7 @@ import sys
 
 import common as c
 import c0809_lib as L
+import c09_contexts as X
 
 PID = "C08"
 MANIFEST = {
@@ -118,7 +119,8 @@ def main(argv):
                                              "observed": got, "expected": expect,
                                              "legend": "<leading comments (hex) joined by .>:<item index>:<trailing (hex)|->",
                                              "rerun": "./check C08 --replay <this file>"})
-        progs = L.corpus_programs(PID) + L.gen_programs(rng, 600 if quick else 15000, h=h)
+        progs = (L.corpus_programs(PID) + X.programs(rng, 400 if quick else 20000) +
+                 L.gen_programs(rng, 600 if quick else 15000, h=h))
         cases = L.run_search_inputs(h, clir, progs, cli_every=2 if quick else 3)
         fails = idem_failures(h, cases)
         classes = classify(h, fails)
